@@ -57,7 +57,7 @@ def run(res, tier, seed):
                 "[complete: every order type incl. samples on starts/ends, duplicates, empty series, empty set, set before/after/between data] "
                 "+ seeded random large cases; public, on a subsample (every 25th with the empty series; every other one stretched to a 3us lattice), each case with a second IntervalSet ep2: "
                 "Ts/Tsd/TsdFrame/TsdTensor.restrict (samples, rows, labels, support), idempotence (samples, rows, support), "
-                "restrict(ep).restrict(ep2) = exact filter by both and = restrict(ep.intersect(ep2)) on samples farther than 1us from every endpoint, "
+                "restrict(ep).restrict(ep2) = exact filter by both and = restrict(ep.intersect(ep2)) on samples farther than 1us from every endpoint, restrict(ep2).restrict(ep) gives the same samples, restrict(ep.union(ep2)) / restrict(ep.set_diff(ep2)) = filter by the Boolean combination on those samples, and when every sample is far the counts obey |a| = |a.intersect(b)| + |a.set_diff(b)| and |union| + |intersect| = |a| + |b|, "
                 "constructor(time_support=) in s/ms/us and on shuffled timestamps; TsGroup.restrict member-wise (Ts and Tsd members, member supports) for a group "
                 "whose support is wide / the default union / the complement of ep (ep fills the gaps of the support and shares all its endpoints with it). "
                 "non-trivial = at least one sample and one interval; distinct = distinct (ts, ep). "
@@ -274,6 +274,35 @@ def public_case(nap, ts, ep, ep2=None, res=None):
             return {"key": key(name + ".restrict", "compose_intersect"),
                     "what": "restrict(a).restrict(b) and restrict(a.intersect(b)) differ on a sample farther than 1us from every endpoint",
                     "input": inp, "impl": [g[0] for g in got], "expected": [w[0] for w in want]}
+        # the same against union / set_diff, and order independence (theorems C03_commute, C03_restrict_union, C03_restrict_set_diff,
+        # C03_partition, C03_inclusion_exclusion): samples farther than 1 us from every endpoint of a and b
+        rc = o.restrict(epo2).restrict(epo)
+        if _ticks(rc.t) != exp2_t or (d is not None and not np.array_equal(rc.values, d[exp2_i])):
+            return {"key": key(name + ".restrict", "commute"), "what": "restrict(b).restrict(a) is not the samples (rows) inside both a and b",
+                    "input": inp, "impl": _ticks(rc.t), "expected": exp2_t}
+        in_a = [G.mem(x, ep) for x in ts]
+        in_b = [G.mem(x, ep2) for x in ts]
+        far_set = set(far_i)
+        for opname, opset, pred in (("union", epo.union(epo2), lambda i: in_a[i] or in_b[i]),
+                                    ("set_diff", epo.set_diff(epo2), lambda i: in_a[i] and not in_b[i])):
+            ro = o.restrict(opset)
+            got = [(x, (None if d is None else np.asarray(v).tolist())) for x, v in zip(_ticks(ro.t), (ro.t if d is None else ro.values)) if _far(x, endpoints)]
+            want = [(ts[i], (None if d is None else np.asarray(d[i]).tolist())) for i in range(n) if i in far_set and pred(i)]
+            if got != want:
+                return {"key": key(name + ".restrict", "compose_" + opname),
+                        "what": "restrict(a.%s(b)) is not the filter by the Boolean combination on a sample farther than 1us from every endpoint" % opname,
+                        "input": inp, "impl": [g[0] for g in got], "expected": [w[0] for w in want]}
+            if name == "Ts" and res is not None:
+                res.count("public_compose_%s_far_kept" % opname, len(want))
+        if len(far_i) == n:      # the counting laws are stated for a series all of whose samples are far
+            na, nb = len(o.restrict(epo)), len(o.restrict(epo2))
+            ni, nu, nd = len(ri), len(o.restrict(epo.union(epo2))), len(o.restrict(epo.set_diff(epo2)))
+            if na != ni + nd or nu + ni != na + nb:
+                return {"key": key(name + ".restrict", "counting"),
+                        "what": "sample counts break |a| = |a.intersect(b)| + |a.set_diff(b)| or |union| + |intersect| = |a| + |b|",
+                        "input": inp, "impl": {"a": na, "b": nb, "inter": ni, "union": nu, "diff": nd}}
+            if name == "Ts" and res is not None:
+                res.count("public_counting_laws_checked")
         # constructor with time_support = construct then restrict (sorted input, the three time units, unsorted input)
         c = _make(nap, name, t, d, time_support=epo)
         if _ticks(c.t) != exp_t or (d is not None and not np.array_equal(c.values, d[exp_i])):
